@@ -45,6 +45,10 @@ struct LP {
   size_t nv;                       // structural variables (all >= 0)
   std::vector<Vec> rows; Vec rhs;  // equality rows
   static long& pivots() { static long p = 0; return p; }
+  // work counter (elementary rational operations) and per-case budget set by the harness; <0: none
+  static long& work() { static long w = 0; return w; }
+  static long& limit() { static long l = -1; return l; }
+  static void spend(long n) { work() += n; if (limit() >= 0 && work() > limit()) throw Budget_Exceeded(); }
 
   int solve(const Vec& obj, Q& opt, Vec* sol = 0) const {
     const size_t m = rows.size();
@@ -80,6 +84,7 @@ private:
   static void pivot(std::vector<Vec>& T, std::vector<size_t>& basis, size_t r, size_t c, size_t N) {
     ++pivots();
     Q p = T[r][c];
+    { long nz = 0; for (size_t j = 0; j <= N; ++j) if (T[r][j] != 0) ++nz; long rows = 0; for (size_t i = 0; i < T.size(); ++i) if (T[i][c] != 0) ++rows; spend(nz * rows + (long) N); }
     for (size_t j = 0; j <= N; ++j) if (T[r][j] != 0) T[r][j] /= p;
     for (size_t i = 0; i < T.size(); ++i) if (i != r && T[i][c] != 0) {
       Q f = T[i][c];
@@ -237,7 +242,8 @@ inline void eliminate(Sys& s, size_t j) {
   }
   std::vector<Con> pos, neg, zero;
   for (size_t i = 0; i < s.cs.size(); ++i) { const Con& c = s.cs[i]; if (c.a[j] > 0) pos.push_back(c); else if (c.a[j] < 0) neg.push_back(c); else zero.push_back(c); }
-  if (pos.size() * neg.size() > 4000) throw Budget_Exceeded();
+  if (pos.size() * neg.size() > 1500) throw Budget_Exceeded();
+  LP::spend((long) (pos.size() * neg.size() * s.n));
   for (size_t p = 0; p < pos.size(); ++p) for (size_t q = 0; q < neg.size(); ++q) {
     Con c; c.a.assign(s.n, Q(0));
     Q fp = -neg[q].a[j], fq = pos[p].a[j];        // both > 0
